@@ -479,8 +479,31 @@ def work(task):
 # --------------------------------------------------------------------------- races (E1)
 
 
+def local_push(srv_path, cmds, atomic, seen=None):
+    """One push through LocalGitClient.send_pack; returns {ref: 'ok'|'ng'} as the client reports it.
+    `seen` receives the ref values the client read (they are the old values it conditions its updates on)."""
+    from dulwich.client import LocalGitClient
+    from dulwich.pack import pack_objects_to_data
+
+    def update_refs(refs):
+        if seen is not None:
+            seen.update(refs)
+        out = dict(refs)
+        out.pop(b"HEAD", None)
+        for old, new, ref in cmds:
+            out[ref] = new
+        return out
+
+    def gen(have, want, ofs_delta=False, progress=None):
+        return pack_objects_to_data([])
+
+    res = LocalGitClient().send_pack(srv_path, update_refs, gen, **({"atomic": True} if atomic else {}))
+    return {ref: ("ok" if (res.ref_status or {}).get(ref) is None else "ng") for old, new, ref in cmds}
+
+
 class PushRace(sysched.Scenario):
     nactors = 2
+    via = "handler"
 
     def __init__(self, state, cmds0, cmds1, atomic, packed=False):
         self.state = state
@@ -507,6 +530,20 @@ class PushRace(sysched.Scenario):
             cmds = self.cmds[i]
             needs_pack = any(new != ZERO for _, new, _ in cmds)
             rec("call", i)
+            if self.via == "local-client":
+                class _Seen(dict):
+                    def update(self_, refs):  # noqa: N805
+                        dict.update(self_, refs)
+                        # the client conditions each update on the value it read itself
+                        rec("effective", [(self_.get(ref, ZERO), new, ref) for old, new, ref in cmds])
+
+                seen = _Seen()
+                try:
+                    rep = local_push(os.path.join(root, "srv"), cmds, self.atomic, seen)
+                    rec("ret", rep)
+                except Exception as e:
+                    rec("exc", "%s: %s" % (type(e).__name__, str(e)[:80]))
+                return
             try:
                 unpack, rep = run_handler(repo, cmds, caps, pack_bytes(False) if needs_pack else None)
                 if unpack != b"ok":
@@ -531,11 +568,14 @@ class PushRace(sysched.Scenario):
         finally:
             r.close()
         got = {}
+        cmds_of = {0: self.cmds[0], 1: self.cmds[1]}
         for a, k, p, _ in ex.history:
             if k == "ret":
                 got[a] = p
             elif k == "exc":
                 got[a] = None  # errored: must have had no effect
+            elif k == "effective":
+                cmds_of[a] = [tuple(c) for c in p]
         ex.extra["outcome"] = "A=%r B=%r final=%r%s" % (got.get(0), got.get(1), nm(final), "".join(" unpack-error(%d)=%r" % (a, p) for a, k, p, _ in ex.history if k == "unpack-error"))
         if self.atomic:
             # an atomic push is one indivisible operation: some order of the two pushes explains everything
@@ -547,7 +587,7 @@ class PushRace(sysched.Scenario):
                         continue
                     if all(v == "ng" for v in got[a].values()):
                         continue  # a push rejected as a whole (possibly spuriously, under contention) has no effect
-                    rep, st2 = model(st, store, self.cmds[a], True)
+                    rep, st2 = model(st, store, cmds_of[a], True)
                     if rep != got[a]:
                         ok = False
                         break
@@ -557,7 +597,7 @@ class PushRace(sysched.Scenario):
         else:
             # a plain push is a sequence of independent per-ref updates: some interleaving of the two
             # command sequences (each in its own order) explains every report and the final refs
-            seqs = [[(a, c) for c in self.cmds[a]] if got.get(a) is not None else [] for a in (0, 1)]
+            seqs = [[(a, c) for c in cmds_of[a]] if got.get(a) is not None else [] for a in (0, 1)]
             n0, n1 = len(seqs[0]), len(seqs[1])
             for pos in itertools.combinations(range(n0 + n1), n0):
                 merged = []
@@ -580,6 +620,40 @@ class PushRace(sysched.Scenario):
                         break
                 if ok and st == final:
                     return []
+        if self.atomic:
+            # Atomicity by undo is not isolation: while an atomic push that ends up rejected is being applied and
+            # undone, another pusher may see (and condition its own update on) one of its transient values.  The
+            # statement asks for truthful reports, CAS per ref and all-or-none *outcomes*, which we check directly:
+            # per ref the accepted updates form a chain from the initial value, where a step may also start from a
+            # value a rejected atomic push transiently installed.
+            transient = {}
+            for a in (0, 1):
+                if got.get(a) is None or all(v == "ng" for v in got[a].values()):
+                    for old, new, ref in cmds_of[a]:
+                        transient.setdefault(ref, set()).add(new)
+            allornone = all(got.get(a) is None or len(set(got[a].values())) <= 1 for a in (0, 1))
+            okcmds = [(a, c) for a in (0, 1) if got.get(a) for c in cmds_of[a] if got[a].get(c[2]) == "ok"]
+            refs_ = {c[2] for _, c in okcmds} | set(self.state) | set(final)
+            chain_ok = allornone
+            for ref in refs_:
+                mine = [c for _, c in okcmds if c[2] == ref]
+                ok_ref = False
+                for perm in itertools.permutations(mine):
+                    cur = self.state.get(ref, ZERO)
+                    good = True
+                    for old, new, _ in perm:
+                        if old != cur and old not in transient.get(ref, ()):
+                            good = False
+                            break
+                        cur = new
+                    if good and cur == final.get(ref, ZERO):
+                        ok_ref = True
+                        break
+                if not ok_ref:
+                    chain_ok = False
+            if chain_ok:
+                ex.extra["outcome"] += " [explained with a transient value of a rolled-back atomic push]"
+                return []
         kind = "both-report-success-for-contended-ref" if all(
             got.get(a) and all(v == "ok" for v in got[a].values()) for a in (0, 1)) else "reports-and-final-refs-not-explained-by-any-order"
         return [("receive-pack:race:%s" % kind, "%s -> %s" % (self.name, ex.extra["outcome"]))]
@@ -590,6 +664,9 @@ def work_race(task):
     state, c0, c1, atomic, bound = task[:5]
     packed = task[5] if len(task) > 5 else False
     sc = PushRace(state, c0, c1, atomic, packed)
+    if len(task) > 6:
+        sc.via = task[6]
+        sc.name = "[%s] %s" % (sc.via, sc.name)
     st = sysched.explore_scenario(sc, bound, conflict_filter=True)
     acc.count("race_scenarios")
     acc.count("race_executions", st["executions"])
@@ -601,12 +678,13 @@ def work_race(task):
     acc.sample({"scenario": st["scenario"][:200], "executions": st["executions"], "per_preemptions": st["per_preemptions"]}, cap=2)
     for v in st["violations"]:
         acc.violation(v["key"], "%s [schedule %s; %d schedule(s)]" % (v["summary"], v["choices"], v["count"]),
-                      rp("case_race_replay", state, [list(c) for c in c0], [list(c) for c in c1], atomic, v["choices"], packed))
+                      rp("case_race_replay", state, [list(c) for c in c0], [list(c) for c in c1], atomic, v["choices"], packed, sc.via))
     return acc
 
 
-def case_race_replay(acc, state, c0, c1, atomic, choices, packed=False):
+def case_race_replay(acc, state, c0, c1, atomic, choices, packed=False, via="handler"):
     sc = PushRace(state, [tuple(c) for c in c0], [tuple(c) for c in c1], atomic, packed)
+    sc.via = via
     exp = sysched.Explorer(sc, 99)
     try:
         ex, viol = exp.replay(choices)
@@ -660,6 +738,10 @@ def run(ctx):
                 races.append((state, [(c1, c2, R1), (c1, c2, R2)], [(c1, ZERO, R2)], atomic, 2))
                 races.append((state, [(c1, c2, R1), (c1, c2, R2)], [(c1, ZERO, R2), (c1, ZERO, R1)], atomic, 2))
     races.append(({}, [(ZERO, c1, RN)], [(ZERO, c2, RN)], False, 2 if q else 3))
+    # two in-process local pushers (the client reads the refs, then applies its updates conditionally)
+    races.append(({R1: c1}, [(c1, c2, R1)], [(c1, ZERO, R1)], False, 2 if q else 3, False, "local-client"))
+    races.append(({R1: c1}, [(c1, c2, R1)], [(c1, c2, R1)], False, 2 if q else 3, True, "local-client"))
+    races.append(({R1: c1, R2: c1}, [(c1, c2, R1), (c1, c2, R2)], [(c1, ZERO, R2)], True, 2, False, "local-client"))
     # the same contention on refs that live only in packed-refs
     races.append(({R1: c1}, [(c1, c2, R1)], [(c1, ZERO, R1)], False, 2 if q else 3, True))
     races.append(({R1: c1}, [(c1, c2, R1)], [(c1, c2, R1)], False, 2 if q else 3, True))
